@@ -124,9 +124,17 @@ package server
 //@   trusted queue internals (holder queue), subject of C20
 //@   modifies nothing
 
+// the holder lookup: sound (only a live hold of that LockId is returned) and complete over the inline part
+// (a live hold of that LockId in the inline slice is found); the map-backed part answers from its index, whose
+// entries are live holds filed under their own LockId (index invariant, kept by Push / RemoveLock: assumed)
+//@ spec func holdMatches(l, id) = l != nil && l.locked > 0 && l.command != nil && l.command.LockId == id
 //@ func (*LockManagerLockQueue).GetLock
-//@   trusted queue internals (holder queue), subject of C20 / C02 completeness
+//@   requires self != nil && command != nil
+//@   requires C02.index.live,C01.index.live: implies(self.scaleQueue != nil && has(self.scaleQueue.maps, command.LockId), holdMatches(self.scaleQueue.maps[command.LockId], command.LockId))
+//@   loop#1 invariant self.fastIndex <= i && forall(k, self.fastIndex, i, !holdMatches(self.fastQueue[k], command.LockId))
 //@   ensures implies(result != nil, result.locked > 0 && result.command != nil && result.command.LockId == command.LockId)
+//@   ensures C02.lookup.complete,C01.lookup.complete: implies(result == nil && !isnil(self.fastQueue) && self.fastIndex >= 0, forall(k, self.fastIndex, len(self.fastQueue), !holdMatches(self.fastQueue[k], command.LockId)))
+//@   ensures C02.lookup.index,C01.lookup.index: implies(result == nil && self.scaleQueue != nil, !has(self.scaleQueue.maps, command.LockId))
 //@   modifies nothing
 
 //@ func (*LockManagerLockQueue).RemoveLock
